@@ -53,6 +53,10 @@ Premises that the property text does not state, named here and in the manifest:
   can supply — the readers refuse NaN — and which the extreme-value stream reaches only through
   values constructed in code, where model and code agreed on every generated case.
 -/
+import Compass.Gen.Decisions
+import Compass.Proofs.Num
+import Compass.Model.Search
+import Compass.Model.Build
 import Compass.Proofs.SearchOpt
 import Compass.Proofs.SearchRoute
 import Compass.Proofs.ConfigUniform
@@ -896,6 +900,32 @@ example : errOf (speedEngineNew (α := ℚ) (some [.val 36, .nan]) .kilometersPe
 example : errOf (speedEngineNew (α := ℚ) (some []) .kilometersPerHour none none) = some .empty := by decide +kernel
 example : errOf (speedEngineNew (α := ℚ) (some [.val 0, .val 0]) .kilometersPerHour none none) = some .zero := by decide +kernel
 example : weightFactorOfQuery (fun b => (b : ℚ)) (.obj [("weight_factor", .str "1.0")]) (some 1) = .error .build := by decide +kernel
+
+end C02
+end Compass
+
+namespace Compass
+namespace C02
+open Src
+
+/-! ### Source decision ties
+
+The relational operators at the named comparison sites of the Rust source are re-extracted on every run
+by `tools/gen_model.py` into `Compass/Gen/Decisions.lean` (`Src.<site> : Src.Rel`).  Each theorem below
+says that the hand-written model decides at that site by exactly the operator the source has there
+(`Rel.nat` / `Rel.int` / `Rel.num` interpret the extracted operator; an unrecognised line is `none`).  A
+source change that turns `<` into `<=`, `>` into `>=`, … at a site changes the generated constant and this
+proof obligation stops checking, whether or not a generated case lands on the tie. -/
+
+theorem src_relax_improves {α : Type} [Field α] [LinearOrder α] [IsStrictOrderedRing α] [Lit α] [LawfulLit α] (tent ex : α) :
+    some (improves tent (some ex)) = relax_improves.num tent ex := by
+  simp [improves, relax_improves, Rel.num]
+
+theorem src_max_speed_fold {α : Type} [Field α] [LinearOrder α] [IsStrictOrderedRing α] [Lit α] [LawfulLit α] (table : List α) :
+    Build.maxFold table =
+      table.foldl (fun acc row => (if max_speed_fold.num acc.1 row = some true then acc.1 else row, acc.2 + 1))
+        ((zero : α), 0) := by
+  simp [Build.maxFold, max_speed_fold, Rel.num]
 
 end C02
 end Compass
